@@ -104,8 +104,10 @@ def checkSearch (ws wl : Nat) (eqv : Nat → Nat → Bool) (p : List Nat) (searc
             let nE := m + min k m + 2
             let nL := t.length + 2
             some (agrees nE o.hits && (kind = "E" || agrees nL (o.hits ++ o.extra)))
-          -- the mirror model of the block-based handler (`Model/MyersTracebackLong.lean`; sampled, no theorem yet):
-          -- band-limited columns of the C09 model, sentinel block, stale slots, block switching
+          -- the mirror model of the block-based handler (`Model/MyersTracebackLong.lean`: band-limited columns of the C09
+          -- model, sentinel block, stale slots, block switching; `scanStoreL` reports `tracebackStoreL` at every wanted
+          -- end — `scanL_is_model` — which is proved to return the rule's prediction for every hit:
+          -- `traceback_long_model_sound`, lazy store: `traceback_long_model_sound_lazy`)
           let blockSame : Option Bool :=
             if wl = 0 || o.hits.isEmpty then none else
             let nb := (m + wl - 1) / wl
